@@ -121,6 +121,9 @@ where
                         let result = fun(argument).await;
                         let _ = result_tx.send(result);
                     }
+
+                    // Remote function was dropped without being called.
+                    else => (),
                 }
             }
             .in_current_span(),
